@@ -530,7 +530,7 @@ func c19HangLimit(big bool) time.Duration {
 
 // c19AfterHang: the handler goroutine is still running (and may spin); the
 // process cannot be reused for shrinking. Record the failure and stop.
-func c19AfterHang(col *verifkit.Collector, c c19Case, msg string) {
+func c19AfterHang(col *verifkit.Collector, c any, msg string) {
 	col.Fail(c, "%s", msg)
 	col.Finish()
 	fmt.Fprintln(os.Stderr, "C19: "+msg)
